@@ -156,6 +156,7 @@ Section NumRun.
 Variable tab : list (N * N).
 Variable lit : Z -> str.
 Variable empty_expr : str.
+Variable proc : N -> Z -> Z.
 Variable ps : style.
 Variable inp : input.
 Hypothesis W : wf tab inp.
@@ -300,15 +301,16 @@ Proof.
 Qed.
 
 (* the values handed to the driver *)
-Definition vals (d : dict pval) : list pval := map (getv d) (P ++ numpos).
+Definition vals (gv : name -> pval) : list pval := map gv (P ++ numpos).
+Notation getp := (fun st : pcstate => getv proc (fprocs inp st) (s_params st)).
 
-Lemma vals_plain : forall d n, In n P -> nth_error (vals d) (N.to_nat (num n) - 1) = Some (getv d n).
+Lemma vals_plain : forall d n, In n P -> nth_error (vals d) (N.to_nat (num n) - 1) = Some (d n).
 Proof.
   intros d n H. destruct (num_plain n H) as [_ E]. rewrite E.
   replace (N.to_nat (1 + N.of_nat (index_of n P)) - 1)%nat with (index_of n P) by lia.
   unfold vals. apply map_nth_error. apply nth_error_app_l. apply index_of_nth. exact H.
 Qed.
-Lemma vals_x : forall d k, In k numpos -> nth_error (vals d) (N.to_nat (xnum k) - 1) = Some (getv d k).
+Lemma vals_x : forall d k, In k numpos -> nth_error (vals d) (N.to_nat (xnum k) - 1) = Some (d k).
 Proof.
   intros d k H. destruct (xnum_ok k H) as [_ E]. rewrite E.
   replace (N.to_nat (1 + N.of_nat (length P) + N.of_nat (index_of k numpos)) - 1)%nat
@@ -316,12 +318,12 @@ Proof.
   unfold vals. apply map_nth_error. rewrite nth_error_app_r. apply index_of_nth. exact H.
 Qed.
 
-Lemma inline_join_num : forall d (items : list (name * Z)),
-  (forall k v, In (k, v) items -> In k numpos /\ getv d k = PS v) -> items <> [] ->
-  inline_num ps (join_toks (map (fun kv => ONum (xnum (fst kv))) items)) (vals d) = Some (join_vals (map snd items)).
+Lemma inline_join_num : forall d (g : Z -> Z) (items : list (name * Z)),
+  (forall k v, In (k, v) items -> In k numpos /\ d k = PS (g v)) -> items <> [] ->
+  inline_num ps (join_toks (map (fun kv => ONum (xnum (fst kv))) items)) (vals d) = Some (join_vals (map g (map snd items))).
 Proof.
-  intros d items. induction items as [|[k v] items IH]; intros H Hne; [congruence|].
-  assert (Hk : N.eqb (xnum k) 0 = false /\ nth_error (vals d) (N.to_nat (xnum k) - 1) = Some (PS v)).
+  intros d g items. induction items as [|[k v] items IH]; intros H Hne; [congruence|].
+  assert (Hk : N.eqb (xnum k) 0 = false /\ nth_error (vals d) (N.to_nat (xnum k) - 1) = Some (PS (g v))).
   { destruct (H k v (or_introl eq_refl)) as [A B]. split.
     - destruct (xnum_ok k A) as [_ E]. apply N.eqb_neq. lia.
     - rewrite (vals_x d k A), B. reflexivity. }
@@ -339,8 +341,8 @@ Qed.
 Lemma num_token : forall st t, Inv (keys npp) st ->
   (forall n, t = Bind n -> In n order /\ kind_of inp n = Plain) ->
   (forall n, t = PC n -> In n order /\ kind_of inp n <> Plain) ->
-  exists r, spec_tok lit empty_expr inp t = Some r /\
-            inline_num ps (map renum (final_tok tab lit empty_expr ps inp bnum t)) (vals (s_params st)) = Some r /\
+  exists r, spec_tok lit empty_expr proc inp t = Some r /\
+            inline_num ps (map renum (final_tok tab lit empty_expr ps inp bnum t)) (vals (getp st)) = Some r /\
             (forall k, In (OPh k) (final_tok tab lit empty_expr ps inp bnum t) -> In k numpos).
 Proof.
   intros st t I Hb Hp. destruct t as [s|n|n].
@@ -349,11 +351,12 @@ Proof.
     + intros k [H|[]]. discriminate.
   - destruct (Hb n eq_refl) as [Hn K]. destruct (w_plain _ _ W n Hn K) as [v Hv].
     assert (HP : In n P) by (apply P_In; split; assumption).
-    exists [Val v]. split; [apply spec_bind; exact Hv|]. split.
+    exists [Val (pz proc inp n v)]. split; [apply spec_bind; exact Hv|]. split.
     + cbn [final_tok map renum inline_num]. destruct (num_plain n HP) as [_ E].
       replace (N.eqb (num n) 0) with false by (symmetry; apply N.eqb_neq; lia).
       rewrite (vals_plain _ n HP). unfold getv.
-      rewrite (v_keep _ _ _ _ _ _ _ I n Hn (or_intror K)), Hv. reflexivity.
+      rewrite (v_keep _ _ _ _ _ _ _ I n Hn (or_intror K)), Hv.
+      rewrite (papply_pz proc inp _ n n v (fprocs_plain tab lit empty_expr ps inp W _ st n I Hn)). reflexivity.
     + intros k [H|[]]. discriminate.
   - destruct (Hp n eq_refl) as [Hn K]. assert (Hd : In n (keys npp)) by (apply npp_keys; exact Hn).
     cbn [final_tok spec_tok]. unfold repl_of.
@@ -365,14 +368,15 @@ Proof.
       * exists (map Ch empty_expr). split; [reflexivity|]. split.
         -- cbn [repl_expand map renum inline_num option_map]. rewrite unpct_pct, app_nil_r. reflexivity.
         -- cbn [repl_expand]. intros k [H|[]]. discriminate.
-      * exists (join_vals (z :: l)). split; [reflexivity|]. unfold repl_expand.
+      * exists (join_vals (map (pz proc inp n) (z :: l))). split; [reflexivity|]. unfold repl_expand.
         rewrite (map_ext _ (fun kv => OPh (fst kv))) by (intro kv; apply bind_tok_num). split.
         -- rewrite join_toks_map by reflexivity. rewrite map_map. cbn [renum].
-           rewrite inline_join_num.
+           rewrite (inline_join_num _ (pz proc inp n)).
            ++ unfold expanded_names. rewrite expand_from_snd. reflexivity.
            ++ intros k v Hi. rewrite Hx in Hi. split.
               ** apply (numpos_In n k Hn K'). exact (xitem_name _ _ _ _ _ Hi).
-              ** unfold getv. rewrite (v_x _ _ _ _ _ _ _ I n k v Hd Hi). reflexivity.
+              ** unfold getv. rewrite (v_x _ _ _ _ _ _ _ I n k v Hd Hi).
+                 exact (papply_pz proc inp _ k n v (fprocs_x tab lit empty_expr ps inp W _ st n k v I Hd Hi)).
            ++ discriminate.
         -- intros k Hk. apply (numpos_In n k Hn K').
            assert (Hin : In (OPh k) (map (fun kv : name * Z => OPh (fst kv)) (expanded_names (esc tab n) (z :: l)))).
@@ -391,8 +395,8 @@ Qed.
 Lemma num_tokens : forall st toks, Inv (keys npp) st ->
   (forall n, In (Bind n) toks -> In n order /\ kind_of inp n = Plain) ->
   (forall n, In (PC n) toks -> In n order /\ kind_of inp n <> Plain) ->
-  exists sp, concat_opt (map (spec_tok lit empty_expr inp) toks) = Some sp /\
-             inline_num ps (map renum (flat_map (final_tok tab lit empty_expr ps inp bnum) toks)) (vals (s_params st)) = Some sp /\
+  exists sp, concat_opt (map (spec_tok lit empty_expr proc inp) toks) = Some sp /\
+             inline_num ps (map renum (flat_map (final_tok tab lit empty_expr ps inp bnum) toks)) (vals (getp st)) = Some sp /\
              (forall k, In (OPh k) (flat_map (final_tok tab lit empty_expr ps inp bnum) toks) -> In k numpos).
 Proof.
   intros st toks I. induction toks as [|t toks IH]; intros Hb Hp.
@@ -420,8 +424,8 @@ Proof.
 Qed.
 
 Theorem num_ok :
-  exists ts fp sp, run tab lit empty_expr ps inp = Ok (ts, fp) /\
-                   inline_spec lit empty_expr inp = Some sp /\ inline ps ts fp = Some sp.
+  exists ts fp sp, run tab lit empty_expr proc ps inp = Ok (ts, fp) /\
+                   inline_spec lit empty_expr proc inp = Some sp /\ inline ps ts fp = Some sp.
 Proof.
   pose proof Hps as Hpos.
   unfold run, compile. rewrite Hnum, process_numeric_ok. cbn [bind c_toks c_positiontup c_next].
@@ -439,7 +443,7 @@ Proof.
       * rewrite (v_numpos _ _ _ _ _ _ _ I), (v_newpos _ _ _ _ _ _ _ I), Hnum, Hpos, newpos_P.
         fold numpos. fold ppx.
         rewrite (mapM_ok _ renum).
-        -- cbn [bind]. rewrite (assemble_ok _ _ (vals_present st I)). cbn [bind].
+        -- cbn [bind]. rewrite (assemble_ok proc _ _ _ (vals_present st I)). cbn [bind].
            eexists _, _, sp. split; [reflexivity|]. split; [exact S1|].
            unfold inline. rewrite Hnum. exact S2.
         -- intros t Ht. destruct t; try reflexivity. cbn [renum].
@@ -467,11 +471,13 @@ Proof.
     assert (Hre : map renum (map (ctok tab ps bnum) (i_toks inp)) = map (ctok tab ps bnum) (i_toks inp)).
     { rewrite <- (map_id (map (ctok tab ps bnum) (i_toks inp))) at 2. apply map_ext_in.
       intros t Ht. destruct t; try reflexivity. exfalso. pose proof (S3 n Ht) as Hk. rewrite Hnp in Hk. exact Hk. }
-    assert (Hv : vals (s_params st) = map (getv (i_params inp)) (keys npp)).
+    assert (Hv : vals (getp st) = map (getv proc (dupdate [] (i_procs inp)) (i_params inp)) (keys npp)).
     { unfold vals. rewrite Hnp, app_nil_r, HkP. apply map_ext_in. intros k Hk. unfold getv.
-      apply P_In in Hk. destruct Hk as [Hn K]. rewrite (v_keep _ _ _ _ _ _ _ I k Hn (or_intror K)). reflexivity. }
+      apply P_In in Hk. destruct Hk as [Hn K]. rewrite (v_keep _ _ _ _ _ _ _ I k Hn (or_intror K)).
+      destruct (dget k (i_params inp)); [|reflexivity]. unfold papply.
+      rewrite (fprocs_plain tab lit empty_expr ps inp W _ st k I Hn). reflexivity. }
     rewrite Hre, Hv in S2.
-    rewrite assemble_ok.
+    rewrite (assemble_ok proc).
     + cbn [bind]. eexists _, _, sp. split; [reflexivity|]. split; [exact S1|].
       unfold inline. rewrite Hnum. exact S2.
     + intros k Hk. rewrite HkP in Hk. apply P_In in Hk. destruct Hk as [Hn K].
